@@ -379,7 +379,9 @@ def mdesc(pid):
     return {"key": G["keys"][str(h)], "dh": G["dhs"][h.dataset_hash], "di": di_label(me.model.datainfo),
             "code": struct_label(me.model) + ":" + me.model.description, "ext": "ctl",
             "res": ("R1" if me.modelfit_results.ofv == OFV["AR"] else "R2") if me.modelfit_results is not None else "none",
-            "digest": str(h), "name": me.model.name, "descr": me.model.description}
+            "digest": str(h), "name": me.model.name, "descr": me.model.description,
+            # what the key must identify, computed without ModelHash: structure, data values, datainfo
+            "content": [struct_label(me.model), str(G["DatasetHash"](me.model.dataset)), di_label(me.model.datainfo)]}
 
 
 def md_sexp(d):
@@ -1040,6 +1042,16 @@ def fidelity_monitors(root, calls, outs, stored, names_in, tags, crashed):
     for p in stored:
         last_by_key.setdefault(D[p]["key"], []).append(p)
     for key, pids in last_by_key.items():
+        # the key identifies the entry: entries stored under one key must be the same model function, data and datainfo
+        for q in pids[1:]:
+            if D[q]["content"] != D[pids[0]]["content"]:
+                diff = [n for n, a, b in zip(("model function/parameters", "dataset values", "datainfo"),
+                                             D[q]["content"], D[pids[0]]["content"]) if a != b]
+                mon.append({"cls": "distinct-entries-share-key",
+                            "what": f"pool entries {pids[0]} and {q} differ in {diff} but ModelHash gives both the database key "
+                                    f"{D[q]['digest'][:10]}…: the second store finds the model file of the first (early return of "
+                                    f"store_model) and is retrieved as the first"})
+                break
         out, me = real_call(root, ["db-retrieve", key])
         if out[0] != "ok":
             mon.append({"cls": "committed-entry-not-retrievable", "what": f"entry {pids} not retrievable by key: {out}"})
@@ -1374,7 +1386,11 @@ def probe_after_crash(croot, calls, ci, j, t, bounds, flat, drv, tags):
     # --- 6. storing ANOTHER model under the name of the interrupted Context store, then retrieving it by name
     if cur[0] == "ctx-store":
         nm = D[cur[1]]["name"]
-        other = next(p for p in ("C", "A", "B") if D[p]["key"] != cur_key and D[p]["dh"] != D[cur[1]]["dh"])
+        other = next((p for p in ("C", "A", "B", "E") if D[p]["key"] != cur_key and D[p]["dh"] != D[cur[1]]["dh"]),
+                     next((p for p in ("C", "A", "B", "E") if D[p]["key"] != cur_key), None))
+        if other is None:
+            tags.append("restore-under-name:no-other-key")
+            return k, mon
         copy = fresh_dir("copy")
         shutil.rmtree(copy)
         shutil.copytree(croot, copy, symlinks=True)
@@ -1391,8 +1407,14 @@ def probe_after_crash(croot, calls, ci, j, t, bounds, flat, drv, tags):
         lk = links.get(nm)
         in_annotations = flat[j][1] == "ctx/annotations" or ann_truncated
         if o1[0] != "ok":
-            mon.append({"cls": "later-store-under-interrupted-name-fails",
-                        "what": f"storing {other} under the name {nm!r} of the interrupted store raises {o1[1]}"})
+            stale = cur_in_txn and D[cur[1]]["dh"] == D[other]["dh"] and index_stale(croot, G["pool"][cur[1]])
+            if stale and o1[1] in ("StopIteration", "FileNotFoundError", "JSONDecodeError"):
+                # the witness of the known F5 class: stale index entry of the shared dataset
+                mon.append({"cls": "store-after-crash-shared-dataset",
+                            "what": f"storing {other} (shares the dataset of the interrupted store of {cur[1]}) under {nm!r} raises {o1[1]}"})
+            else:
+                mon.append({"cls": "later-store-under-interrupted-name-fails",
+                            "what": f"storing {other} under the name {nm!r} of the interrupted store raises {o1[1]}"})
         else:
             good = o2[0] == "ok" and not [b for b in same_entry(val[0], val[1], other, False) if not b.startswith("results")]
             if not good:
